@@ -9,7 +9,7 @@ from vlib.pyround import to_quantum
 PID = 'C02'
 PROPERTY_FILE = 'Properties/C02.v'
 MODEL_TARGETS = R.MODEL_TARGETS
-PROOF_TARGETS = ['Proofs/C02Dim.vo']
+PROOF_TARGETS = ['Proofs/C02Undef.vo']
 COQ_HEADER = R.COQ_HEADER
 COQ_CHECK = R.COQ_CHECK
 ISOLATE = True
